@@ -402,7 +402,11 @@ func (sel *Selection) Delete() (err error) {
 	}
 	defer func() {
 		if endErr := sel.endEdit(NodeRequest{Source: sel, Delete: true, EditRoot: true}, true); endErr != nil {
-			err = fmt.Errorf("error during endEdit: %v, previous error: %w", endErr, err)
+			if err == nil {
+				err = fmt.Errorf("error during endEdit: %w", endErr)
+			} else {
+				err = fmt.Errorf("error during endEdit: %w, previous error: %w", endErr, err)
+			}
 		}
 	}()
 
